@@ -899,6 +899,28 @@ def parity_slice(fm):
     return out
 
 
+def stride_slice(m):
+    """[f(X[i]) for i in range(c, len(X), s)]  ==  f(X[c::s])   (element-wise f, constant start and stride)"""
+    if m[0] != 'map' or m[1][0] != 'range':
+        return None
+    k, elt = m[1], m[2]
+    if not (_nonneg_const(k[1]) and _nonneg_const(k[3]) and k[3][1] >= 2):
+        return None
+    lv = next((x for x in walk(elt) if x[0] == 'lv' and x[1] == k), None)
+    if lv is None:
+        return None
+    srcs = {x for x in walk(elt) if x[0] == 'idx' and x[2] == lv}
+    if len(srcs) != 1:
+        return None
+    src = next(iter(srcs))
+    if length(src[1]) != k[2]:
+        return None
+    out = subst(elt, lambda x: slice_(src[1], k[1], NONE, k[3]) if x == src else None)
+    if any(x == lv for x in walk(out)):
+        return None
+    return out
+
+
 def contains(t, pred):
     return any(pred(x) for x in walk(t))
 
